@@ -98,6 +98,7 @@ def modelLoadObs (c : Cfg) : LoadObs :=
   | .accept _ => .accept true
   | .reject _ => .reject
   | .crash => .crash
+  | .hang => .timeout
 
 def resObs (r : TxnRes) : TxnObs :=
   match r.err with
